@@ -551,7 +551,9 @@ def run_check(tier: str, seed: int, workers: Any) -> Dict[str, Any]:
              'get_status awaited in loop tasks) mixed with a plain rpc play', assumptions=[], bounds={'K': 2},
         describe=lambda u: {'program': programs.describe(u[0]), 'wrapped': u[2], 'controller': 'async'})
     out = runner.merge(parts + [part1b, part2])
-    part3 = check_broadcast_faults(small)
+    from ..explore import guarded_part
+    part3 = guarded_part(lambda: check_broadcast_faults(small), 300, {'part': 3})
+    part3.setdefault('n', 0)
     out['coverage']['evaluations'] += part3['n']
     out['coverage']['traces_validated_against_impl'] += part3['n']
     out['coverage']['transitions'] += part3['n']
